@@ -226,14 +226,46 @@ func Gen(c *core.Ctx) {
 		"HTTP/1.1 200 OK\r\nCACHE-CONTROL: max-age=100\r\nLOCATION: http://192.168.0.1/x.xml\r\nST: upnp:rootdevice\r\n\r\n",
 		"HTTP/1.1 404 Not Found\r\n\r\n",
 	}
+	// more shapes for the dispatch model (ssdp.disp): cache-control spellings, NTS values, MAN, user agents, responses
+	for _, s := range []string{
+		"NOTIFY * HTTP/1.1\r\nNTS: ssdp:alive\r\nCACHE-CONTROL: MAX-AGE=60\r\nLOCATION: http://10.0.0.1/a\r\n\r\n",
+		"NOTIFY * HTTP/1.1\r\nNTS: ssdp:alive\r\nCACHE-CONTROL: max-age=0\r\n\r\n",
+		"NOTIFY * HTTP/1.1\r\nNTS: ssdp:alive\r\nCACHE-CONTROL: a=b=max-age=7\r\n\r\n",
+		"NOTIFY * HTTP/1.1\r\nNTS: ssdp:alive\r\nCACHE-CONTROL: max-age=-5\r\n\r\n",
+		"NOTIFY * HTTP/1.1\r\nNTS: ssdp:alive\r\nCACHE-CONTROL: no-cache\r\n\r\n",
+		"NOTIFY * HTTP/1.1\r\nNTS: ssdp:alive\r\nCACHE-CONTROL: max-age=\r\n\r\n",
+		"NOTIFY * HTTP/1.1\r\nnts: ssdp:alive\r\ncache-control: max-age=12\r\nlocation: x\r\n\r\n",
+		"NOTIFY * HTTP/1.1\r\nNTS: ssdp:update\r\n\r\n",
+		"NOTIFY * HTTP/1.1\r\n\r\n",
+		"NOTIFY  HTTP/1.1\r\nNTS: ssdp:alive\r\n\r\n",
+		"M-SEARCH * HTTP/1.1\r\nMAN: ssdp:discover\r\n\r\n",
+		"M-SEARCH * HTTP/1.1\r\nMAN: \"ssdp:discover\"\r\nUSER-AGENT: Microsoft Edge/91.0.864.64 Windows\r\n\r\n",
+		"M-SEARCH * HTTP/1.1\r\nMAN: \"ssdp:discover\"\r\nUSER-AGENT: iPad iOS Linux Windows\r\n\r\n",
+		"M-SEARCH * HTTP/1.1\r\nMAN: \"ssdp:discover\"\r\n\r\n",
+		"HTTP/1.1 200 OK\r\n\r\n",
+		"HTTP/1.1 200 OK\r\nlocation: http://h/\r\nContent-Length: 3\r\n\r\nabc",
+		"HTTP/1.0 301 Moved\r\nLOCATION: http://h/\r\n\r\n",
+		"HTTP/1.1 200\r\nLOCATION: a\r\n\r\n",
+		"GET / HTTP/1.1\r\nHost: a\r\n\r\n",
+	} {
+		b := []byte(s)
+		add(c, "ssdp.disp", "ssdp.disp "+core.Hex(b))
+		for k, n := 0, c.Scale(12, 600); k < n; k++ {
+			add(c, "ssdp.disp-mutated", "ssdp.disp "+core.Hex(c17.Mutate(r, b)))
+		}
+	}
 	for _, s := range raws {
 		b := []byte(s)
 		add(c, "ssdp", "ssdp "+core.Hex(b))
+		add(c, "ssdp.disp", "ssdp.disp "+core.Hex(b))
 		for cut := 0; cut < len(b); cut += 1 + r.Intn(c.Scale(4, 1)) {
 			add(c, "ssdp-trunc", "ssdp "+core.Hex(b[:cut]))
+			add(c, "ssdp.disp-trunc", "ssdp.disp "+core.Hex(b[:cut]))
 		}
 		for k, n := 0, c.Scale(60, 3000); k < n; k++ {
-			add(c, "ssdp-mutated", "ssdp "+core.Hex(c17.Mutate(r, b)))
+			m := c17.Mutate(r, b)
+			add(c, "ssdp-mutated", "ssdp "+core.Hex(m))
+			add(c, "ssdp.disp-mutated", "ssdp.disp "+core.Hex(m))
 		}
 	}
 	// parseTXT
